@@ -172,6 +172,7 @@ def merge(parts):
 def launch(job, hashseed):
     env = dict(os.environ)
     env["PYTHONHASHSEED"] = str(hashseed)
+    env["VERIF_REPO"] = core.REPO          # absolute: workers run with cwd=/verif
     env["OMP_NUM_THREADS"] = "1"
     env["MKL_NUM_THREADS"] = "1"
     env["PYTHONDONTWRITEBYTECODE"] = "1"
@@ -261,7 +262,9 @@ def run_check(prop, tier, verif_seed, nruns=None, nworkers=None, write_evidence=
     t0 = time.time()
     nworkers = nworkers or min(16, os.cpu_count() or 1)
     n = nruns or int(os.environ.get("VERIF_RUNS") or 0) or BUDGET[prop][tier]
-    cap = 1500 if tier == "quick" else 6 * 3600
+    if n < 1 or (nworkers is not None and nworkers < 1):
+        raise core.HarnessError("nothing to explore: runs=%s workers=%s" % (n, nworkers))
+    cap = 3600 if tier == "quick" else 8 * 3600
     indices = list(range(n))
     print("[%s] tier=%s VERIF_SEED=%d runs=%d workers=%d repo=%s" % (prop, tier, verif_seed, n, nworkers, core.REPO))
     sys.stdout.flush()
